@@ -39,6 +39,10 @@ struct Inner {
     switches_inside: u64,
     in_op: Vec<bool>,
     labels: BTreeMap<String, u64>,
+    /// threads the watchdog found blocked inside the code under test (on a lock another sim
+    /// thread holds) while they held the baton; cleared when they reach their next yield point
+    blocked: Vec<bool>,
+    forced_handoffs: u64,
 }
 
 static STATE: Mutex<Option<Inner>> = Mutex::new(None);
@@ -56,6 +60,8 @@ pub struct SchedReport {
     pub switches: u64,
     pub switches_inside: u64,
     pub labels: BTreeMap<String, u64>,
+    #[serde(default)]
+    pub forced_handoffs: u64,
 }
 
 fn lock() -> std::sync::MutexGuard<'static, Option<Inner>> {
@@ -90,6 +96,8 @@ pub fn install(n: usize, strategy: Strategy, seed: u64, replay: Option<Vec<u8>>)
         switches_inside: 0,
         in_op: vec![false; n],
         labels: BTreeMap::new(),
+        blocked: vec![false; n],
+        forced_handoffs: 0,
     });
 }
 
@@ -103,6 +111,7 @@ pub fn uninstall() -> SchedReport {
             switches: i.switches,
             switches_inside: i.switches_inside,
             labels: i.labels,
+            forced_handoffs: i.forced_handoffs,
         },
         None => SchedReport::default(),
     }
@@ -110,7 +119,7 @@ pub fn uninstall() -> SchedReport {
 
 impl Inner {
     fn alive_list(&self) -> Vec<i32> {
-        (0..self.alive.len() as i32).filter(|t| self.alive[*t as usize]).collect()
+        (0..self.alive.len() as i32).filter(|t| self.alive[*t as usize] && !self.blocked[*t as usize]).collect()
     }
 
     /// who runs next, given that `me` is at a yield point (`me_alive` false at thread exit)
@@ -197,9 +206,14 @@ pub fn thread_exit() {
     if let Some(i) = g.as_mut() {
         if tid >= 0 {
             i.alive[tid as usize] = false;
-            let next = i.choose(tid, false);
-            i.recorded.push(if next < 0 { 255 } else { next as u8 });
-            i.current = next;
+            i.blocked[tid as usize] = false;
+            if i.current == tid {
+                let next = i.choose(tid, false);
+                i.recorded.push(if next < 0 { 255 } else { next as u8 });
+                i.current = next;
+            }
+            // else: a thread that lost the baton to the watchdog while blocked and then ran to
+            // its end without another yield point; the baton is not its to pass on
         }
     }
     drop(g);
@@ -229,8 +243,25 @@ pub fn yield_point(label: &str) {
     let mut g = lock();
     let Some(i) = g.as_mut() else { return };
     if i.current != tid {
-        // not the baton holder: can only happen for a thread that is not under the
-        // scheduler's control (e.g. a helper thread spawned by the code under test)
+        // A sim thread that is not the baton holder: it was blocked inside the code under test
+        // when the watchdog passed the baton on, and has just been released. It parks here
+        // like any other waiting thread.
+        i.blocked[tid as usize] = false;
+        if i.current < 0 || !i.alive.get(i.current as usize).copied().unwrap_or(false) {
+            // nobody holds the baton any more (everyone else finished): take it
+            i.current = tid;
+        }
+        loop {
+            match g.as_ref() {
+                Some(i) if i.current == tid => break,
+                None => return,
+                _ => {}
+            }
+            g = CV.wait(g).unwrap_or_else(|e| e.into_inner());
+        }
+        let Some(i) = g.as_mut() else { return };
+        i.step += 1;
+        let _ = i;
         return;
     }
     i.step += 1;
@@ -270,4 +301,39 @@ pub extern "C" fn shim_yield(cls: std::ffi::c_int) {
     }
     let name = crate::shim::CLASS_NAMES.get(cls as usize).copied().unwrap_or("io");
     yield_point(name);
+}
+
+/// (steps so far, current holder) — read by the watchdog
+pub fn progress() -> (u64, i32) {
+    match lock().as_ref() {
+        Some(i) => (i.step, i.current),
+        None => (0, -1),
+    }
+}
+
+/// Watchdog: the baton holder consumes no CPU and makes no step — it is blocked inside the
+/// code under test, on a lock that a parked sim thread holds (the unchanged compiler has no
+/// locks; a change may add one). Real threads would simply wait; under the baton that is a
+/// deadlock by construction. Pass the baton on to another runnable thread, chosen by the
+/// scheduler. Returns false when there is nobody to pass it to.
+pub fn force_handoff() -> bool {
+    let mut g = lock();
+    let Some(i) = g.as_mut() else { return false };
+    let h = i.current;
+    if h < 0 {
+        return false;
+    }
+    i.blocked[h as usize] = true;
+    let alive = i.alive_list();
+    if alive.is_empty() {
+        i.blocked[h as usize] = false;
+        return false;
+    }
+    let next = i.choose(h, false);
+    i.recorded.push(next as u8);
+    i.forced_handoffs += 1;
+    i.current = next;
+    drop(g);
+    CV.notify_all();
+    true
 }
